@@ -267,6 +267,13 @@ def _m_part_txts(interp, args, kwargs):
 M.model(part_txts, _m_part_txts)
 
 
+def raw_txt_of(c):
+    """the text of a class whose file is made by writing: as it is written (before any decoding)"""
+    if isinstance(c, contents_via_write_to.ContentsViaWriteTo):
+        return c._writer.txt
+    return txt_of(c)
+
+
 def cached_path_ok(c):
     """class invariant of StringSourceContentsWithCachedPath: a cached path holds the text"""
     return c._as_file_path is None or file_text(c._as_file_path) == txt_of(c)
@@ -451,7 +458,8 @@ M.contract(_P_VAL + '.write_to', params=dict(self=VIA_AS_LINES, output=Iface(Tex
            ensures={'appends txt': lambda self, output, old: written(output) == old + txt_of(self)},
            raises_only=())
 M.contract(_P_VAL + '._to_file', params=dict(self=VIA_AS_LINES), inline=True,
-           ensures={'file decodes to txt': lambda self, result: file_text(result) == txt_of(self)},
+           ensures={'file decodes to txt': lambda self, result: file_text(result) == txt_of(self),
+                    'the file stores the text as written': lambda self, result: file_stored(result) == txt_of(self)},
            replay=lambda model, rf: replays_c14.source('as_file_of_contents_of_str'),
            raises_only=())
 
@@ -459,7 +467,9 @@ WITH_CACHED_PATH_FROM_WRITE_TO = Union(CONTENTS_OF_STR, CONTENTS_VIA_WRITE_TO, T
 
 M.contract(P_CWCP + ':ContentsWithCachedPathFromWriteToBase._to_file',
            params=dict(self=WITH_CACHED_PATH_FROM_WRITE_TO), inline=True,
-           ensures={'file decodes to txt': lambda self, result: file_text(result) == txt_of(self)},
+           requires=lambda self: self._as_file_path is None,        # the only caller: as_file, when nothing is cached
+           ensures={'file decodes to txt': lambda self, result: file_text(result) == txt_of(self),
+                    'the file stores the text as written': lambda self, result: file_stored(result) == raw_txt_of(self)},
            replay=lambda model, rf: replays_c14.source('as_file_of_contents_of_str'),
            raises_only=())
 
@@ -750,7 +760,14 @@ M.contract(P_FROZEN + ':frozen__from_write',
            requires=lambda mem_buff_size: mem_buff_size >= 1,
            returns=SSC,
            ensures={
-               'the frozen text is the text written': lambda writer, result: txt_of(result) == writer_txt(writer),
+               'kept in memory: the frozen text is the text written': lambda writer, result:
+               is_opaque(result) or not isinstance(result, contents_of_str.ContentsOfStr)
+               or txt_of(result) == writer_txt(writer),
+               'spilled to disk: the frozen text is the text written': lambda writer, result:
+               is_opaque(result) or isinstance(result, contents_of_str.ContentsOfStr)
+               or txt_of(result) == writer_txt(writer),
+               '(for the users of the contract) the frozen text is the text written': lambda writer, result:
+               (not is_opaque(result)) or result.txt == writer_txt(writer),
                'implements I_SSC': lambda result: implements_i_ssc(result),
                'kept in memory iff it fits in the buffer': lambda writer, mem_buff_size, result:
                is_opaque(result) or iff(isinstance(result, contents_of_str.ContentsOfStr),
